@@ -138,8 +138,9 @@ class PeerSim(object):
             ans.mode = "real"
             kw = dict(kwargs)
             solver = self.cfg.get("solver", "CLARABEL")
-            if kw.get("solver") in (None, "MOSEK"):
+            if kw.get("solver") in (None, "MOSEK") or self.cfg.get("force_solver"):
                 kw["solver"] = solver
+            ans.solver = kw["solver"]
             kw.pop("verbose", None)
             kw.update(self.cfg.get("solver_kwargs") or {})
             try:
@@ -412,6 +413,8 @@ def mosek_real_solve(task, world):
         _ORIG_CVXPY_SOLVE(prob, solver="CLARABEL")
     except cp.SolverError:
         world.note("spontaneous_solver_error")
+        if world.cur is not None:
+            world.cur.spont_flag = True
         raise mosek.Error("stand-in: the optimizer failed (spontaneous)")
     st = prob.status
     dims = list(task.bardims)
@@ -442,8 +445,15 @@ def mosek_real_solve(task, world):
             ev = np.linalg.eigvalsh((Sj + Sj.T) / 2)
             if (maximize and ev.max() > tol) or ((not maximize) and ev.min() < -tol):
                 raise HarnessError("stand-in KKT self-check: sign of S_%d: %r" % (j, ev))
-            if abs(float(np.sum(Sj * barx[j]))) > 10 * tol:
-                raise HarnessError("stand-in KKT self-check: complementarity of bar variable %d" % j)
+            comp = abs(float(np.sum(Sj * barx[j])))
+            if comp > 10 * tol:
+                # an inaccurate answer of the real solver (badly scaled / nearly unbounded model) is a spontaneous
+                # peer fault, not a convention error: conventions are sign errors and show as O(1) relative
+                rel = comp / (1e-12 + float(np.linalg.norm(Sj)) * float(np.linalg.norm(barx[j])))
+                if rel > 1e-3 and st == "optimal":
+                    raise HarnessError("stand-in KKT self-check: complementarity of bar variable %d (%g, rel %g)"
+                                       % (j, comp, rel))
+                world.note("standin_inaccurate_complementarity")
         for i in range(task.ncon):
             bk = task.cb[i][0]
             if bk == "up" and sgn * y[i] < -tol:
